@@ -93,7 +93,7 @@ pub fn run(env: &Env) -> Rec {
     special.extend(pools.nfkc_diff.iter());
     special.sort();
     special.dedup();
-    let marks: Vec<char> = pools.marks.iter().copied().take(if env.quick() { 12 } else { 80 }).collect();
+    let marks: Vec<char> = pools.marks.iter().copied().take(if env.quick() { 40 } else { 80 }).collect();
     let r2 = par(special.len(), |i, rec| {
         let c = special[i];
         let mut s = String::new();
@@ -106,7 +106,7 @@ pub fn run(env: &Env) -> Rec {
             }
         }
         let mut rng = Rng::stream(env.seed, 0x08_0000 + i as u64);
-        for _ in 0..if env.quick() { 6 } else { 60 } {
+        for _ in 0..if env.quick() { 30 } else { 300 } {
             let d = *rng.pick(&special);
             for p in ALL_PROF {
                 s.clear();
@@ -134,7 +134,7 @@ pub fn run(env: &Env) -> Rec {
     rec.merge(r3);
     rec.exhaustive(format!("every canonical composition pair of UnicodeData 16.0.0 ({}), all four profiles", pools.compose_pairs.len()));
     // the profile workloads of C04-C06
-    let n = env.n(150_000, 6_000_000);
+    let n = env.n(1_500_000, 40_000_000);
     let per = 1000usize;
     let r4 = par(n.div_ceil(per), |c, rec| {
         let mut rng = Rng::stream(env.seed, 0x08_8000 + c as u64);
